@@ -155,7 +155,14 @@ func Flatten(opts FlattenOpts) error {
 		removeUnused(&opts)
 	}
 
-	// 8. Issue warning notifications, if any
+	// 8. Check that no local $ref is left dangling
+	if !opts.ContinueOnError {
+		if err := checkLocalRefs(&opts); err != nil {
+			return err
+		}
+	}
+
+	// 9. Issue warning notifications, if any
 	opts.croak()
 
 	// TODO: simplify known schema patterns to flat objects with properties
@@ -164,6 +171,31 @@ func Flatten(opts FlattenOpts) error {
 	//  - empty allOf with validation only or extensions only
 	//  - rework allOf arrays
 	//  - rework allOf additionalProperties
+
+	return nil
+}
+
+// checkLocalRefs verifies that every local schema $ref of the flattened document resolves.
+//
+// Remote $ref are resolved when imported and $ref expanded by spec.ExpandSpec are checked there:
+// a local $ref to a definition that does not exist would otherwise go unnoticed.
+func checkLocalRefs(opts *FlattenOpts) error {
+	keys := make([]string, 0, len(opts.Spec.references.schemas))
+	for key := range opts.Spec.references.schemas {
+		keys = append(keys, key)
+	}
+	sort.Strings(keys)
+
+	for _, key := range keys {
+		ref := opts.Spec.references.schemas[key]
+		if !ref.HasFragmentOnly {
+			continue
+		}
+
+		if _, _, err := ref.GetPointer().Get(opts.Swagger()); err != nil {
+			return ErrAtKey(key, ErrResolveSchema(err))
+		}
+	}
 
 	return nil
 }
